@@ -155,7 +155,7 @@ func main() {
 		{"mixed", []string{"pay", "sf", "form1", "rev1", "prove1", "form2", "rev2", "res2"}}} {
 		cfg := chain.BaseConfig(chain.Shapes()[rn.shape])
 		cfg.Templates = rn.tpl
-		cfg.Defects = []string{"reuse", "intx"}
+		cfg.Defects = []string{"reuse", "intx", "confuse"}
 		cfg.MaxReverts = 2
 		o := opts
 		if len(rn.tpl) < len(chain.AllTemplates) {
@@ -205,7 +205,7 @@ func main() {
 			p.GenSF = []chain.AbsOut{{7000, "Z"}, {3000, "Z"}}
 			cfg.P = p
 		}
-		cfg.Templates, cfg.Defects = f.tpl, []string{"reuse", "intx"}
+		cfg.Templates, cfg.Defects = f.tpl, []string{"reuse", "intx", "confuse"}
 		cfg.Pay1, cfg.Sizes, cfg.RevShifts, cfg.FormRH = []int{256411}, []int{200}, []int{24}, [][2]int{{250024, 25}}
 		cfg.PayAmts, cfg.Fees, cfg.SFSplits = []int{599}, []int{0}, []int{3000}
 		cfg.WinStarts, cfg.WinLens = []int{1}, []int{2}
@@ -233,7 +233,7 @@ func main() {
 	}
 	c.Traces(int64(total.Behaviours))
 	c.Count(int64(total.Steps), nontriv)
-	for _, need := range []string{"v2:pay!intx", "v1:pay!intx", "v2:pay!reuse", "v1:pay!reuse", "v2:reuse-gone", "v1:reuse-gone", "v2:sf!reuse", "v2:sf!intx"} {
+	for _, need := range []string{"v2:pay!intx", "v1:pay!intx", "v2:pay!reuse", "v1:pay!reuse", "v2:reuse-gone", "v1:reuse-gone", "v2:sf!reuse", "v2:sf!intx", "v1:confuse"} {
 		if cells[need] == 0 {
 			c.Infra("vacuity: second-use cell %s never exercised", need)
 		}
